@@ -75,6 +75,7 @@ class Func:
     decorators: set[str] = field(default_factory=set)
     kind: str = "function"  # function | method | classmethod | staticmethod | property | setter
     nested: dict[str, "Func"] = field(default_factory=dict)
+    nested_all: dict[str, list["Func"]] = field(default_factory=dict)  # every def of a name (branches may define it several times)
     lambdas: list["Func"] = field(default_factory=list)
 
     def __hash__(self) -> int:
@@ -309,6 +310,9 @@ class Model:
             return
         if parent is not None:
             qual = f"{parent.qual}.<locals>.{node.name}"
+            dup = len(parent.nested_all.get(node.name, []))
+            if dup:
+                qual = f"{qual}#{dup + 1}"  # same-named nested defs in different branches
         elif cls is not None:
             qual = f"{cls.qual}.{node.name}"
         else:
@@ -338,7 +342,8 @@ class Model:
             cls.all_defs.append(f)
             self.methods_by_name.setdefault(node.name, []).append(f)
         elif parent is not None:
-            parent.nested[node.name] = f
+            parent.nested.setdefault(node.name, f)
+            parent.nested_all.setdefault(node.name, []).append(f)
             f.kind = "function"
         else:
             m.funcs[node.name] = f
